@@ -60,7 +60,8 @@ Fixpoint sorted_keys (l : list bytes) : bool :=
   end.
 
 (* shape + separator well-formedness of one bucket's tree, as a boolean checker:
-   - a branch has at least one entry and all its children have the same height;
+   - a branch has at least one entry, its separators are strictly ascending, and all its children
+     have the same height;
    - separators bound their subtrees: every key under child i (i >= 1) is >= separator i, every key
      under child i is < separator i+1; child 0 is unbounded below (search sends smaller keys there);
    - keys strictly ascending across the whole tree (checked on the flattened list by wf_tree). *)
@@ -80,6 +81,7 @@ Fixpoint wf_shape (t : tree) : bool :=
   | TB _ _ ks =>
       negb (match ks with [] => true | _ => false end) &&
       forallb (fun kt : bytes * tree => wf_shape (snd kt)) ks &&
+      sorted_keys (map fst ks) &&                 (* separators strictly ascending (DB::check demands it too) *)
       seps_ok true (map (fun kt : bytes * tree => (fst kt, flatten (snd kt))) ks) &&
       match ks with
       | [] => true
